@@ -321,11 +321,15 @@ def run_shard(shard, tier, res):
                 case['again'] = True
             check_case(case, res)
             last = case
-    if shard['part'] == 0:
-        # nfloorplans = 0 ('-i': start from the given centres): deterministic, no draws
+    if True:
+        # nfloorplans = 0 ('-i': start from the given centres): deterministic, no draws (spread over the shards)
+        k0 = 0
         for topo in TOPOLOGIES:
             for extra in ('none', 'fixed', 'hard', 'pins'):
                 for die in ([6, 4], [10, 3]):
+                    k0 += 1
+                    if k0 % shard['parts'] != shard['part']:
+                        continue
                     check_case(dict(topo=topo, masses='unequal', extra=extra, die=die, n=5, trials=0, answers=[0.5]), res)
                     for init in ('row', 'column', 'same', 'diag', 'grid2'):
                         for ans in ([0.5, 0.2, 0.8, 0.35, 0.65], [0.9, 0.1, 0.6, 0.3, 0.45]):
